@@ -68,9 +68,9 @@ def registry():
     from . import rules_dims as DM
     FWD_DIMS = ['_dot', '_dot_non_UTPM_x', '_dot_non_UTPM_y', '_outer', '_outer_non_utpm_x', '_outer_non_utpm_y', '_inv', '_solve',
                 '_solve_non_UTPM_A', '_solve_non_UTPM_x', '_iouter', '_diag']
-    PB_DIMS = ['_dot_pullback', '_outer_pullback', '_inv_pullback', '_solve_pullback', '_qr_rectangular_pullback', '_diag_pullback']
+    PB_DIMS = ['_dot_pullback', '_outer_pullback', '_inv_pullback', '_solve_pullback', '_qr_rectangular_pullback', '_qr_pullback', '_qr_full_pullback', '_diag_pullback']
     reg['C03'] = dict(
-        rules=[T.rule_pb_sig, T.rule_pb_acc, T.rule_pb_out, T.rule_pb_view, T.rule_pb_ro, T.rule_pb_complete, T.rule_pb_pair, T.rule_setitem_copy, T.rule_pb_setitem_clear, T.rule_pb_rebind, T.rule_pb_dead, S.rule_const_all_coeffs, T.rule_pb_threshold, T.rule_pb_propagate, T.rule_pb_each, DM.rule_dims_kernels(PB_DIMS, 'C03.dims'), DM.rule_dims_wrappers(['pb_dot', 'pb_outer', 'pb_solve', 'pb_inv'], 'C03.dims-wrap')] + ([G.rule_pb_grade('C03')] if G is not None else []),
+        rules=[T.rule_pb_sig, T.rule_pb_acc, T.rule_pb_out, T.rule_pb_view, T.rule_pb_ro, T.rule_pb_complete, T.rule_pb_pair, T.rule_setitem_copy, T.rule_pb_setitem_clear, T.rule_pb_rebind, T.rule_pb_dead, S.rule_const_all_coeffs, T.rule_pb_threshold, T.rule_pb_propagate, T.rule_pb_each, DM.rule_dims_kernels(PB_DIMS, 'C03.dims', 120), DM.rule_dims_wrappers(['pb_dot', 'pb_outer', 'pb_solve', 'pb_inv', 'pb_qr', 'pb_qr_full'], 'C03.dims-wrap', 50)] + ([G.rule_pb_grade('C03')] if G is not None else []),
         explanation='Static decision of the tracer<->pullback calling protocol every traced program depends on. '
                     'Decides: existence/arity/keyword/permutation agreement between each recorder site and UTPM.pb_<name> '
                     '(R-pb-sig); accumulate-never-overwrite into adjoint storage (R-pb-acc, via the E1 alias/effect analysis '
@@ -148,7 +148,7 @@ def registry():
         reg['C07'] = dict(
             rules=[G.rule_grade('C07'), S.rule_linalg_kinds, S.rule_slice_ops, S.rule_compound,
                    lambda ctx: S.rule_base(ctx, ['_inv', '_solve', '_solve_non_UTPM_x'], 'C07.base'), S.rule_wrap_order, A.rule_class_state,
-                   DM.rule_dims_kernels(FWD_DIMS, 'C07.dims'), DM.rule_dims_wrappers(['dot', 'outer'], 'C07.dims-wrap')],
+                   DM.rule_dims_kernels(FWD_DIMS, 'C07.dims', 60), DM.rule_dims_wrappers(['dot', 'outer', 'solve'], 'C07.dims-wrap', 25)],
             explanation='Static decision of structural conditions of the linear-algebra kernels: dot/outer/inv/solve (all operand-kind '
                         'variants) are homogeneous (O3) with maximal ranges (O4); UTPM.dot/outer/solve select the kernel whose suffix names '
                         'the raw operand and pass .data / raw operands in kernel order (C07.kinds); det/logdet/Pade expm use only graded '
@@ -158,7 +158,7 @@ def registry():
         reg['C08'] = dict(
             rules=[G.rule_grade('C08'), lambda ctx: S.rule_base(ctx, ['_cholesky', '_qr_rectangular', '_qr_full', '_eigh1'], 'C08.base'),
                    _only(P.rule_p3, FACT, 'C08.dir-after'), _only(P.rule_p3b, FACT, 'C08.dir-carried'),
-                   _only(P.rule_paxis, FACT, 'C08.dir-const'), _only(P.rule_p4, FACT, 'C08.dir-joint'), _only(G.rule_out_defined, FACT, 'C08.out-defined'), S.rule_wrap_order, S.rule_cast_guard, A.rule_class_state, DM.rule_dims_kernels(['_qr_rectangular'], 'C08.dims')],
+                   _only(P.rule_paxis, FACT, 'C08.dir-const'), _only(P.rule_p4, FACT, 'C08.dir-joint'), _only(G.rule_out_defined, FACT, 'C08.out-defined'), S.rule_wrap_order, S.rule_cast_guard, A.rule_class_state, DM.rule_dims_kernels(['_qr_rectangular', '_qr', '_qr_full'], 'C08.dims', 40), DM.rule_dims_wrappers(['qr', 'qr_full'], 'C08.dims-wrap', 8)],
             explanation='Static decision of structural conditions of the factorization recurrences: in _qr_rectangular, _qr_full, _cholesky, '
                         '_eigh1, lu, lu2, lu_factor every residual (dF, dG, H, S, K) and every factor coefficient is homogeneous of the order '
                         'being defined (O3) and the residual sums are maximal (O4); base points come from numpy.linalg.qr / scipy.linalg.qr / '
